@@ -35,7 +35,7 @@ theorem C12_final_any_schedule {cfg : Cfg} {s : State} (hnf : noFaults cfg = tru
     (verify : Bool) (interval : Int) (evs : List Ev)
     (hevs : evs.map (·.piece) = s.seen)            -- the results in the order the collector saw them
     (hpos : 0 < cfg.items.length)
-    (hexc : ∀ e ∈ evs, e.kind = .exc → 1 ≤ e.nexc) :
+    (hexc : ∀ e ∈ evs, e.kind = .exc → verify = true ∧ 1 ≤ e.nexc) :
     ∃ call, (calls verify interval cfg.items.length evs).getLast? = some call ∧
       call.done = cfg.items.length := by
   have hperm := C12_arrival_is_permutation hnf hcb h hr
